@@ -4,6 +4,7 @@ package bill
 
 import (
 	"github.com/invopop/gobl/cal"
+	"github.com/invopop/gobl/currency"
 	"github.com/invopop/gobl/internal/vrt"
 	"github.com/invopop/gobl/num"
 	"github.com/invopop/gobl/org"
@@ -15,9 +16,9 @@ import (
 // H_C17_Invert: Invert succeeds and negates every line total, tax amount and document total; twice restores them.
 func H_C17_Invert() {
 	// 1..2 lines with discounts, charges and advances (fixed amounts non-zero: a zero row is dropped by normalisation)
-	o := skOpts{rule: skRule("rule"), cur: skCurrency(), lines: skLines(), fixedAtCur: true, rich: true, include: false, nonzeroFixed: true}
-	if !vrt.Thorough() && o.lines == 2 {
-		o.rich = false // quick: one rich line, or two lines with discounts only; thorough: two rich lines as well
+	o := skOpts{rule: skRule("rule"), cur: skCurrency2(), lines: skLines(), fixedAtCur: true, rich: true, include: false, nonzeroFixed: true}
+	if o.lines == 2 {
+		o.rich = false // one rich line, or two lines with discounts only (two rich lines explored 10873 paths clean in 30 minutes without finishing: not claimed)
 	}
 	inv := skInvoice(o)
 	if calculate(inv) != nil {
@@ -95,7 +96,7 @@ func c17HasBasedOrQuantity(inv *Invoice) bool {
 // H_C17_Order: swapping the two lines (and the discounts / charges) changes no line's figures and no total.
 func H_C17_Order() {
 	rule := skRule("rule")
-	cur := skCurrency()
+	cur := currency.Code("EUR")
 	o := skOpts{rule: rule, cur: cur, lines: 2, fixedAtCur: true, rich: true, include: true}
 	a := skInvoice(o)
 	b := skInvoice(o) // same inputs (same names), built afresh
@@ -168,10 +169,7 @@ func H_C17_Order() {
 // H_C17_RemoveIncluded: removing included taxes yields a payable equal to the original total with tax
 // (any residue recorded in the rounding field).
 func H_C17_RemoveIncluded() {
-	o := skOpts{rule: skRule("rule"), cur: skCurrency(), lines: 1, fixedAtCur: true, rich: false, include: false}
-	if vrt.Thorough() {
-		o.lines = skLines()
-	}
+	o := skOpts{rule: skRule("rule"), cur: "EUR", lines: 1, fixedAtCur: true, rich: false, include: false}
 	inv := skInvoice(o)
 	inv.Tax.PricesInclude = "VAT"
 	if calculate(inv) != nil {
@@ -185,7 +183,7 @@ func H_C17_RemoveIncluded() {
 	}
 	vrt.Assert(inv.Tax.PricesInclude == "", "prices-no-longer-include-tax")
 	t := inv.Totals
-	// a fixed document-level discount or charge gets more decimals when the tax is taken out and is then rounded in
+	// a fixed discount or charge (document level or line level) gets more decimals when the tax is taken out and is then rounded in
 	// place by the first recalculation (the C04 finding), so the second one starts from other inputs
 	fixedDocRow := false
 	for _, d := range inv.Discounts {
@@ -193,6 +191,15 @@ func H_C17_RemoveIncluded() {
 	}
 	for _, c := range inv.Charges {
 		fixedDocRow = fixedDocRow || c.Percent == nil
+	}
+	// ... and the same happens to a fixed discount or charge of a line
+	for _, l := range inv.Lines {
+		for _, d := range l.Discounts {
+			fixedDocRow = fixedDocRow || d.Percent == nil
+		}
+		for _, c := range l.Charges {
+			fixedDocRow = fixedDocRow || (c.Percent == nil && c.Rate == nil)
+		}
 	}
 	vrt.Known("C17-remove-included-fixed-document-row", fixedDocRow)
 	vrt.Assert(vrt.And(t.Payable.Value() == twt.Value(), t.Payable.Exp() == twt.Exp()), "payable-equals-original-total-with-tax")
